@@ -80,9 +80,7 @@ namespace awkward {
 
   void
   RecordBuilder::clear() {
-    for (auto x : contents_) {
-      x.get()->clear();
-    }
+    contents_.clear();
     keys_.clear();
     pointers_.clear();
     name_ = "";
